@@ -72,7 +72,7 @@ type vfConn struct {
 	writeErr func(n int, dst netip.Addr) error
 }
 
-func newVfConn() *vfConn {
+func vfNewVfConn() *vfConn {
 	return &vfConn{t0: time.Now(), readC: make(chan vfRead), dlC: make(chan struct{})}
 }
 
@@ -166,14 +166,14 @@ var (
 
 // manyHost is the address of solicitor number id >= len(vfHosts) (scenarios with hundreds of
 // distinct solicitors): fe80::5eed:<id>.
-func manyHost(id int) netip.Addr {
+func vfManyHost(id int) netip.Addr {
 	b := netip.MustParseAddr("fe80::5eed:0").As16()
 	b[14], b[15] = byte(id>>8), byte(id)
 	return netip.AddrFrom16(b)
 }
 
 // hostID maps a destination/source to the small ids of the case lines: 0 = :: / ff02::1.
-func hostID(a netip.Addr) int {
+func vfHostID(a netip.Addr) int {
 	if a == vfAllNodes {
 		return 0
 	}
@@ -247,11 +247,11 @@ type vfAdv struct {
 
 // newVfAdv builds a real Advertiser whose Dialer hands out the scripted connection.
 // A second dial (re-initialisation) fails with a permission error so that Run ends.
-func newVfAdv(cfg config.Interface, terminate bool, watchC <-chan netstate.Change) *vfAdv {
+func vfNewVfAdv(cfg config.Interface, terminate bool, watchC <-chan netstate.Change) *vfAdv {
 	st := &vfState{forwarding: true}
 	mm := NewMetrics(metricslite.NewMemory(), "v", time.Time{}, st, []config.Interface{cfg})
 	cctx := NewContext(nil, mm, st)
-	v := &vfAdv{mm: mm, state: st, conn: newVfConn()}
+	v := &vfAdv{mm: mm, state: st, conn: vfNewVfConn()}
 	d := system.NewDialer("vf0", st, system.Advertise, nil)
 	d.DialFunc = func() (*system.DialContext, error) {
 		v.dials++
@@ -302,13 +302,13 @@ func (v *vfAdv) counters() map[string]int {
 	return out
 }
 
-func sortedWrites(ws []vfWrite) []vfWrite {
+func vfSortedWrites(ws []vfWrite) []vfWrite {
 	out := append([]vfWrite(nil), ws...)
 	sort.SliceStable(out, func(i, j int) bool {
 		if out[i].begin != out[j].begin {
 			return out[i].begin < out[j].begin
 		}
-		return hostID(out[i].dst) < hostID(out[j].dst)
+		return vfHostID(out[i].dst) < vfHostID(out[j].dst)
 	})
 	return out
 }
